@@ -334,7 +334,7 @@ def run(report, tier, seed):
                         sk["delimiter"] = rng.choice([",", ";", "\t", " , "])
                         lk["delimiter"] = sk["delimiter"].strip() or sk["delimiter"]
                     if rng.random() < 0.3:
-                        sk["comments"] = lk["comments"] = rng.choice(["#", "% ", "// ", "@", "## "])
+                        sk["comments"] = lk["comments"] = rng.choice(["#", "% ", "// ", "@", "## ", "$ ", "* ", "| ", "(c) ", "+ ", "? ", "[x] ", "^"])
                     if rng.random() < 0.3:
                         sk["header"] = rng.choice(["my header", "two\nlines", "numpoly is not here", " x"])
                     if rng.random() < 0.15:
